@@ -44,6 +44,13 @@ RULE = ("call/mutation histories (<= 30 quick / <= 200 thorough) over generated 
 TOL = 1e-9
 
 
+
+def _priv_em(em, name):
+    """a private table of the ExchangeMap (compared with the model while it exists under this name; an empty table
+    otherwise: the comparison of internals is then void, the mapped coordinates are compared regardless)"""
+    v = getattr(em, name, None)
+    return v if v is not None else {}
+
 def generate(ctx):
     rng = ctx.rng
     nseq = ctx.n(300, 450)
@@ -209,7 +216,7 @@ def setup_world(ctx, case):
     S.ptgt = w.env[S.tgt].deep_copy()
     S.tgt_labels = [(g[1], g[2]) for g in hg.gro_part(hg.observe(w.env[S.tgt]))]
     S.tgt_top_labels = [(t[0], t[1]) for t in hg.top_part(hg.observe(w.env[S.tgt]))[1:]]
-    S.tgt_each = list(w.env[S.tgt]._each_atom_resid)
+    S.tgt_each = [k for k, r in enumerate(w.env[S.tgt].residues) for _ in r]    # (= Molecule._each_atom_resid)
     # build
     status = "ok"
     try:
@@ -220,10 +227,10 @@ def setup_world(ctx, case):
     extra = None
     if w.em is not None:
         refm, tgtm = w.env[S.ref], w.env[S.tgt]
-        extra = {"equiv": sorted((int(k), int(v)) for k, v in w.em._equivalences.items()),
-                 "keys": sorted(int(k) for k in w.em._refsystems),
+        extra = {"equiv": sorted((int(k), int(v)) for k, v in _priv_em(w.em, '_equivalences').items()),
+                 "keys": sorted(int(k) for k in _priv_em(w.em, '_refsystems')),
                  "dist": [{int(a): float(np.linalg.norm(tgtm[j].position - refm[a].position))
-                           for a in w.em._refsystems} for j in range(len(tgtm))]}
+                           for a in _priv_em(w.em, '_refsystems')} for j in range(len(tgtm))]}
     w.record(f"build {S.ref} {S.tgt} {fbits(S.scale)}", "ExchangeMap(ref, tgt, scale)", status, extra)
     S.ExchangeMap = ExchangeMap
     return w, S
@@ -244,7 +251,7 @@ def handout(w, base, j, variant):
 def call(ctx, case, w, S, i, expect, argdesc, obj=None):
     """emap(env[i]) (or emap(obj) for a non-component python object) + the oracle"""
     before = w.snapshot()
-    keys_before = sorted(int(k) for k in w.em._refsystems)
+    keys_before = sorted(int(k) for k in _priv_em(w.em, '_refsystems'))
     arg = w.env[i] if obj is None else obj[1]
     status, ret = "ok", None
     try:
@@ -258,7 +265,7 @@ def call(ctx, case, w, S, i, expect, argdesc, obj=None):
                        "sys": None})
     toks = f"call {i}" if obj is None else "callother"
     w.record(toks, f"emap({argdesc})", status,
-             {"keys": sorted(int(k) for k in w.em._refsystems)})
+             {"keys": sorted(int(k) for k in _priv_em(w.em, '_refsystems'))})
     after = w.snaps[-1]
     ctx.count(f"call:{expect}:{status}")
     fails = []
@@ -277,7 +284,7 @@ def call(ctx, case, w, S, i, expect, argdesc, obj=None):
         if status != "TypeError":
             fails.append(("bad-argument-not-TypeError", {"status": status, "arg": argdesc}))
         elif not all(hg.bits_equal(a, b) for a, b in zip(before, after)) or \
-                keys_before != sorted(int(k) for k in w.em._refsystems):
+                keys_before != sorted(int(k) for k in _priv_em(w.em, '_refsystems')):
             fails.append(("rejected-call-changed-state", {"arg": argdesc}))
         ctx.oracle_ok(2)
     elif expect == "good":
